@@ -1,4 +1,10 @@
 
+(** val negb : bool -> bool **)
+
+let negb = function
+| true -> false
+| false -> true
+
 type nat =
 | O
 | S of nat
@@ -60,6 +66,34 @@ type z =
 | Z0
 | Zpos of positive
 | Zneg of positive
+
+module Nat =
+ struct
+  (** val eqb : nat -> nat -> bool **)
+
+  let rec eqb n0 m =
+    match n0 with
+    | O -> (match m with
+            | O -> true
+            | S _ -> false)
+    | S n' -> (match m with
+               | O -> false
+               | S m' -> eqb n' m')
+
+  (** val leb : nat -> nat -> bool **)
+
+  let rec leb n0 m =
+    match n0 with
+    | O -> true
+    | S n' -> (match m with
+               | O -> false
+               | S m' -> leb n' m')
+
+  (** val ltb : nat -> nat -> bool **)
+
+  let ltb n0 m =
+    leb (S n0) m
+ end
 
 module Pos =
  struct
@@ -574,6 +608,17 @@ module Z =
     let (_, r) = div_eucl a b in r
  end
 
+(** val nth : nat -> 'a1 list -> 'a1 -> 'a1 **)
+
+let rec nth n0 l default =
+  match n0 with
+  | O -> (match l with
+          | [] -> default
+          | x :: _ -> x)
+  | S m -> (match l with
+            | [] -> default
+            | _ :: t -> nth m t default)
+
 (** val concat : 'a1 list list -> 'a1 list **)
 
 let rec concat = function
@@ -586,11 +631,46 @@ let rec map f = function
 | [] -> []
 | a :: t -> (f a) :: (map f t)
 
+(** val flat_map : ('a1 -> 'a2 list) -> 'a1 list -> 'a2 list **)
+
+let rec flat_map f = function
+| [] -> []
+| x :: t -> app (f x) (flat_map f t)
+
+(** val fold_right : ('a2 -> 'a1 -> 'a1) -> 'a1 -> 'a2 list -> 'a1 **)
+
+let rec fold_right f a0 = function
+| [] -> a0
+| b :: t -> f b (fold_right f a0 t)
+
+(** val existsb : ('a1 -> bool) -> 'a1 list -> bool **)
+
+let rec existsb f = function
+| [] -> false
+| a :: l0 -> (||) (f a) (existsb f l0)
+
 (** val forallb : ('a1 -> bool) -> 'a1 list -> bool **)
 
 let rec forallb f = function
 | [] -> true
 | a :: l0 -> (&&) (f a) (forallb f l0)
+
+(** val filter : ('a1 -> bool) -> 'a1 list -> 'a1 list **)
+
+let rec filter f = function
+| [] -> []
+| x :: l0 -> if f x then x :: (filter f l0) else filter f l0
+
+(** val seq : nat -> nat -> nat list **)
+
+let rec seq start = function
+| O -> []
+| S len0 -> start :: (seq (S start) len0)
+
+(** val list_sum : nat list -> nat **)
+
+let list_sum l =
+  fold_right add O l
 
 type byte = n
 
@@ -843,3 +923,962 @@ let builtin_table escape_all =
   match table_of_json (builtin_json escape_all) with
   | Some t -> t
   | None -> []
+
+type chan = nat
+
+type pid = nat
+
+type wgid = nat
+
+type alt =
+| SendAlt of chan
+| RecvAlt of chan
+| DoneAlt
+| TimerAlt
+| DefaultAlt
+
+type iokind =
+| RecvLine
+| WriteWire
+| PauseGate
+| FileIO
+| Unknown
+
+type stmt =
+| Sel of (alt * stmt list) list
+| Io of iokind
+| Cancel
+| IfCtxExit
+| Return
+| RecvClose of chan
+| SendOnce of chan
+| Join of pid
+| WgWait of wgid
+| WgAdd of wgid
+| WgDone of wgid
+| Branch of stmt list * stmt list
+| LoopCtx of stmt list
+| LoopRange of chan * stmt list
+| LoopData of stmt list
+
+type proc = { body : stmt list; finally : stmt list; defer_close : chan list;
+              exit_cancel : bool; rank : nat }
+
+type net = { procs_of : proc list; caps : nat list; senders : pid option list }
+
+(** val noproc : proc **)
+
+let noproc =
+  { body = []; finally = []; defer_close = []; exit_cancel = false; rank = O }
+
+(** val info : net -> pid -> proc **)
+
+let info n0 p =
+  nth p n0.procs_of noproc
+
+(** val nprocs : net -> nat **)
+
+let nprocs n0 =
+  length n0.procs_of
+
+(** val capof : net -> chan -> nat **)
+
+let capof n0 c =
+  nth c n0.caps O
+
+(** val sender : net -> chan -> pid option **)
+
+let sender n0 c =
+  nth c n0.senders None
+
+(** val exitsS : stmt -> bool **)
+
+let rec exitsS = function
+| Sel cs ->
+  let rec fa = function
+  | [] -> true
+  | c :: r ->
+    (&&)
+      (let (_, bd) = c in
+       let rec ex = function
+       | [] -> false
+       | x :: t -> (||) (exitsS x) (ex t)
+       in ex bd) (fa r)
+  in fa cs
+| IfCtxExit -> true
+| Return -> true
+| SendOnce _ -> true
+| Branch (a, b) ->
+  (&&)
+    (let rec ex = function
+     | [] -> false
+     | x :: t -> (||) (exitsS x) (ex t)
+     in ex a)
+    (let rec ex = function
+     | [] -> false
+     | x :: t -> (||) (exitsS x) (ex t)
+     in ex b)
+| _ -> false
+
+(** val exitsL : stmt list -> bool **)
+
+let exitsL l =
+  existsb exitsS l
+
+type condition =
+| W1
+| W2
+| W3
+| W4
+| W5
+
+(** val is_wake : alt -> bool **)
+
+let is_wake = function
+| SendAlt _ -> false
+| RecvAlt _ -> false
+| _ -> true
+
+(** val has_wake : (alt * stmt list) list -> bool **)
+
+let has_wake cs =
+  existsb (fun c -> is_wake (fst c)) cs
+
+(** val opt_pid_eqb : pid option -> pid option -> bool **)
+
+let opt_pid_eqb a b =
+  match a with
+  | Some x -> (match b with
+               | Some y -> Nat.eqb x y
+               | None -> false)
+  | None -> (match b with
+             | Some _ -> false
+             | None -> true)
+
+(** val closer_ok : net -> pid -> chan -> bool **)
+
+let closer_ok n0 me c =
+  existsb (fun q ->
+    (&&) (Nat.ltb (info n0 q).rank (info n0 me).rank)
+      (existsb (Nat.eqb c) (info n0 q).defer_close)) (seq O (nprocs n0))
+
+(** val alt_ok : net -> alt -> bool **)
+
+let alt_ok n0 = function
+| SendAlt c -> opt_pid_eqb (sender n0 c) None
+| _ -> true
+
+(** val check : net -> pid -> bool -> stmt -> condition option **)
+
+let check n0 me infin = function
+| Sel cs ->
+  if negb (has_wake cs)
+  then Some W1
+  else if negb (forallb (fun c -> alt_ok n0 (fst c)) cs)
+       then Some W4
+       else None
+| Io k -> (match k with
+           | Unknown -> Some W5
+           | _ -> None)
+| IfCtxExit -> if infin then Some W4 else None
+| Return -> if infin then Some W4 else None
+| RecvClose c -> if closer_ok n0 me c then None else Some W3
+| SendOnce c ->
+  if (&&) ((&&) (negb infin) (opt_pid_eqb (sender n0 c) (Some me)))
+       (Nat.ltb O (capof n0 c))
+  then None
+  else Some W4
+| Join q ->
+  if (&&) (Nat.ltb (info n0 q).rank (info n0 me).rank) (Nat.ltb q (nprocs n0))
+  then None
+  else Some W3
+| WgWait _ -> Some W4
+| LoopRange (c, bd) ->
+  if negb (closer_ok n0 me c)
+  then Some W3
+  else if negb (exitsL bd) then Some W2 else None
+| _ -> None
+
+(** val checkb : net -> pid -> bool -> stmt -> bool **)
+
+let checkb n0 me infin s =
+  match check n0 me infin s with
+  | Some _ -> false
+  | None -> true
+
+(** val okS : net -> pid -> bool -> stmt -> bool **)
+
+let rec okS n0 me infin s =
+  (&&) (checkb n0 me infin s)
+    (match s with
+     | Sel cs ->
+       let rec fa = function
+       | [] -> true
+       | c :: r ->
+         (&&)
+           (let (_, bd) = c in
+            let rec ok = function
+            | [] -> true
+            | x :: t -> (&&) (okS n0 me infin x) (ok t)
+            in ok bd) (fa r)
+       in fa cs
+     | Branch (a, b) ->
+       (&&)
+         (let rec ok = function
+          | [] -> true
+          | x :: t -> (&&) (okS n0 me infin x) (ok t)
+          in ok a)
+         (let rec ok = function
+          | [] -> true
+          | x :: t -> (&&) (okS n0 me infin x) (ok t)
+          in ok b)
+     | LoopCtx bd ->
+       let rec ok = function
+       | [] -> true
+       | x :: t -> (&&) (okS n0 me infin x) (ok t)
+       in ok bd
+     | LoopRange (_, bd) ->
+       let rec ok = function
+       | [] -> true
+       | x :: t -> (&&) (okS n0 me infin x) (ok t)
+       in ok bd
+     | LoopData bd ->
+       let rec ok = function
+       | [] -> true
+       | x :: t -> (&&) (okS n0 me infin x) (ok t)
+       in ok bd
+     | _ -> true)
+
+(** val okL : net -> pid -> bool -> stmt list -> bool **)
+
+let okL n0 me infin l =
+  forallb (okS n0 me infin) l
+
+(** val violS :
+    net -> pid -> bool -> stmt -> ((pid * stmt) * condition) list **)
+
+let rec violS n0 me infin s =
+  app
+    (match check n0 me infin s with
+     | Some w -> ((me, s), w) :: []
+     | None -> [])
+    (match s with
+     | Sel cs ->
+       let rec fa = function
+       | [] -> []
+       | c :: r ->
+         app
+           (let (_, bd) = c in
+            let rec vl = function
+            | [] -> []
+            | x :: t -> app (violS n0 me infin x) (vl t)
+            in vl bd) (fa r)
+       in fa cs
+     | Branch (a, b) ->
+       app
+         (let rec vl = function
+          | [] -> []
+          | x :: t -> app (violS n0 me infin x) (vl t)
+          in vl a)
+         (let rec vl = function
+          | [] -> []
+          | x :: t -> app (violS n0 me infin x) (vl t)
+          in vl b)
+     | LoopCtx bd ->
+       let rec vl = function
+       | [] -> []
+       | x :: t -> app (violS n0 me infin x) (vl t)
+       in vl bd
+     | LoopRange (_, bd) ->
+       let rec vl = function
+       | [] -> []
+       | x :: t -> app (violS n0 me infin x) (vl t)
+       in vl bd
+     | LoopData bd ->
+       let rec vl = function
+       | [] -> []
+       | x :: t -> app (violS n0 me infin x) (vl t)
+       in vl bd
+     | _ -> [])
+
+(** val violL :
+    net -> pid -> bool -> stmt list -> ((pid * stmt) * condition) list **)
+
+let violL n0 me infin l =
+  flat_map (violS n0 me infin) l
+
+(** val ok_proc : net -> pid -> bool **)
+
+let ok_proc n0 p =
+  (&&) (okL n0 p false (info n0 p).body) (okL n0 p true (info n0 p).finally)
+
+(** val nodupb : nat list -> bool **)
+
+let rec nodupb = function
+| [] -> true
+| x :: r -> (&&) (negb (existsb (Nat.eqb x) r)) (nodupb r)
+
+(** val closers_unique : net -> bool **)
+
+let closers_unique n0 =
+  nodupb (flat_map (fun p -> p.defer_close) n0.procs_of)
+
+(** val wf : net -> bool **)
+
+let wf n0 =
+  (&&) (forallb (ok_proc n0) (seq O (nprocs n0))) (closers_unique n0)
+
+(** val wf_violations : net -> ((pid * stmt) * condition) list **)
+
+let wf_violations n0 =
+  flat_map (fun p ->
+    app (violL n0 p false (info n0 p).body)
+      (violL n0 p true (info n0 p).finally)) (seq O (nprocs n0))
+
+(** val flatS : stmt -> stmt list **)
+
+let rec flatS s =
+  s :: (match s with
+        | Sel cs ->
+          let rec fa = function
+          | [] -> []
+          | c :: r ->
+            app
+              (let (_, bd) = c in
+               let rec fl = function
+               | [] -> []
+               | x :: t -> app (flatS x) (fl t)
+               in fl bd) (fa r)
+          in fa cs
+        | Branch (a, b) ->
+          app
+            (let rec fl = function
+             | [] -> []
+             | x :: t -> app (flatS x) (fl t)
+             in fl a)
+            (let rec fl = function
+             | [] -> []
+             | x :: t -> app (flatS x) (fl t)
+             in fl b)
+        | LoopCtx bd ->
+          let rec fl = function
+          | [] -> []
+          | x :: t -> app (flatS x) (fl t)
+          in fl bd
+        | LoopRange (_, bd) ->
+          let rec fl = function
+          | [] -> []
+          | x :: t -> app (flatS x) (fl t)
+          in fl bd
+        | LoopData bd ->
+          let rec fl = function
+          | [] -> []
+          | x :: t -> app (flatS x) (fl t)
+          in fl bd
+        | _ -> [])
+
+(** val flatL : stmt list -> stmt list **)
+
+let flatL l =
+  flat_map flatS l
+
+(** val all_stmts : proc -> stmt list **)
+
+let all_stmts p =
+  app (flatL p.body) (flatL p.finally)
+
+(** val is_range : stmt -> bool **)
+
+let is_range = function
+| LoopRange (_, _) -> true
+| _ -> false
+
+(** val count : (stmt -> bool) -> stmt list -> nat **)
+
+let count f l =
+  length (filter f l)
+
+(** val net_counts : net -> nat list **)
+
+let net_counts n0 =
+  app
+    ((length n0.procs_of) :: ((length n0.caps) :: ((length
+                                                     (flat_map (fun p ->
+                                                       p.defer_close)
+                                                       n0.procs_of)) :: (
+    (list_sum (map (fun p -> count is_range (all_stmts p)) n0.procs_of)) :: []))))
+    n0.caps
+
+(** val wg_bufInitWG : wgid **)
+
+let wg_bufInitWG =
+  O
+
+(** val ch_send_sendFileDataV2_0 : chan **)
+
+let ch_send_sendFileDataV2_0 =
+  O
+
+(** val ch_send_ReadData_0 : chan **)
+
+let ch_send_ReadData_0 =
+  S O
+
+(** val ch_send_ReadData_1 : chan **)
+
+let ch_send_ReadData_1 =
+  S (S O)
+
+(** val ch_send_CalculateMD5_0 : chan **)
+
+let ch_send_CalculateMD5_0 =
+  S (S (S O))
+
+(** val ch_send_EncodeData_0 : chan **)
+
+let ch_send_EncodeData_0 =
+  S (S (S (S O)))
+
+(** val ch_send_SendData_0 : chan **)
+
+let ch_send_SendData_0 =
+  S (S (S (S (S O))))
+
+(** val ch_send_RecvAck_0 : chan **)
+
+let ch_send_RecvAck_0 =
+  S (S (S (S (S (S O)))))
+
+(** val p_send_CalculateMD5 : pid **)
+
+let p_send_CalculateMD5 =
+  S O
+
+(** val p_send_RecvAck : pid **)
+
+let p_send_RecvAck =
+  S (S (S (S O)))
+
+(** val p_send_ShowProgress : pid **)
+
+let p_send_ShowProgress =
+  S (S (S (S (S O))))
+
+(** val send_ReadData_body : stmt list **)
+
+let send_ReadData_body =
+  (LoopCtx ((Io FileIO) :: ((Branch (((Sel (((SendAlt ch_send_ReadData_0),
+    []) :: ((DoneAlt, (Return :: [])) :: []))) :: ((Sel (((SendAlt
+    ch_send_ReadData_1), []) :: ((DoneAlt, (Return :: [])) :: []))) :: [])),
+    [])) :: ((Branch (((Branch ((Cancel :: (Return :: [])), [])) :: []),
+    ((Branch ((Cancel :: (Return :: [])), [])) :: []))) :: [])))) :: []
+
+(** val send_ReadData_finally : stmt list **)
+
+let send_ReadData_finally =
+  []
+
+(** val send_ReadData_proc : proc **)
+
+let send_ReadData_proc =
+  { body = send_ReadData_body; finally = send_ReadData_finally; defer_close =
+    (ch_send_ReadData_0 :: (ch_send_ReadData_1 :: [])); exit_cancel = false;
+    rank = O }
+
+(** val send_CalculateMD5_body : stmt list **)
+
+let send_CalculateMD5_body =
+  (LoopRange (ch_send_ReadData_1, ((Branch ((Cancel :: (Return :: [])),
+    [])) :: (IfCtxExit :: [])))) :: (IfCtxExit :: ((SendOnce
+    ch_send_CalculateMD5_0) :: []))
+
+(** val send_CalculateMD5_finally : stmt list **)
+
+let send_CalculateMD5_finally =
+  []
+
+(** val send_CalculateMD5_proc : proc **)
+
+let send_CalculateMD5_proc =
+  { body = send_CalculateMD5_body; finally = send_CalculateMD5_finally;
+    defer_close = (ch_send_CalculateMD5_0 :: []); exit_cancel = false; rank =
+    (S O) }
+
+(** val send_EncodeData_body : stmt list **)
+
+let send_EncodeData_body =
+  (Branch ((Cancel :: (Return :: [])), [])) :: ((LoopRange
+    (ch_send_ReadData_0, ((LoopData ((LoopData ((Branch ([], ((Branch ([],
+    ((Branch (((WgAdd wg_bufInitWG) :: []), [])) :: ((Sel (((SendAlt
+    ch_send_EncodeData_0), []) :: ((DoneAlt, []) :: []))) :: ((Branch ([],
+    ((Branch (((WgWait wg_bufInitWG) :: []),
+    [])) :: []))) :: []))))) :: []))) :: [])) :: [])) :: ((Branch
+    ((Cancel :: (Return :: [])), [])) :: ((Branch (((LoopData ((LoopData
+    ((Branch ([], ((Branch ([], ((Branch (((WgAdd wg_bufInitWG) :: []),
+    [])) :: ((Sel (((SendAlt ch_send_EncodeData_0), []) :: ((DoneAlt,
+    []) :: []))) :: ((Branch ([], ((Branch (((WgWait wg_bufInitWG) :: []),
+    [])) :: []))) :: []))))) :: []))) :: [])) :: [])) :: ((Branch
+    ((Cancel :: (Return :: [])), [])) :: [])),
+    [])) :: (IfCtxExit :: [])))))) :: [])
+
+(** val send_EncodeData_finally : stmt list **)
+
+let send_EncodeData_finally =
+  (LoopData ((LoopData ((Branch ([], ((Branch ([], ((Branch (((WgAdd
+    wg_bufInitWG) :: []), [])) :: ((Sel (((SendAlt ch_send_EncodeData_0),
+    []) :: ((DoneAlt, []) :: []))) :: ((Branch ([], ((Branch (((WgWait
+    wg_bufInitWG) :: []),
+    [])) :: []))) :: []))))) :: []))) :: [])) :: [])) :: ((Branch (((Sel
+    (((SendAlt ch_send_EncodeData_0), []) :: ((DoneAlt,
+    []) :: []))) :: ((Branch ([], ((Sel (((SendAlt ch_send_EncodeData_0),
+    []) :: ((DoneAlt, []) :: []))) :: []))) :: [])), ((Sel (((SendAlt
+    ch_send_EncodeData_0), []) :: ((DoneAlt,
+    []) :: []))) :: []))) :: ((Branch ((Cancel :: []), [])) :: []))
+
+(** val send_EncodeData_proc : proc **)
+
+let send_EncodeData_proc =
+  { body = send_EncodeData_body; finally = send_EncodeData_finally;
+    defer_close = (ch_send_EncodeData_0 :: []); exit_cancel = false; rank =
+    (S O) }
+
+(** val send_SendData_body : stmt list **)
+
+let send_SendData_body =
+  (LoopRange (ch_send_EncodeData_0, (IfCtxExit :: ((Branch (((Io
+    PauseGate) :: ((Io WriteWire) :: ((Branch ([], ((Sel (((SendAlt
+    ch_send_SendData_0), []) :: ((DoneAlt, []) :: []))) :: []))) :: ((Branch
+    ((Cancel :: (Return :: [])), [])) :: [])))), ((LoopData ((Io
+    PauseGate) :: ((Io WriteWire) :: ((Branch ([], ((Sel (((SendAlt
+    ch_send_SendData_0), []) :: ((DoneAlt, []) :: []))) :: []))) :: ((Branch
+    ((Cancel :: (Return :: [])),
+    [])) :: (IfCtxExit :: [])))))) :: []))) :: [])))) :: []
+
+(** val send_SendData_finally : stmt list **)
+
+let send_SendData_finally =
+  []
+
+(** val send_SendData_proc : proc **)
+
+let send_SendData_proc =
+  { body = send_SendData_body; finally = send_SendData_finally; defer_close =
+    (ch_send_SendData_0 :: []); exit_cancel = false; rank = (S (S O)) }
+
+(** val send_RecvAck_body : stmt list **)
+
+let send_RecvAck_body =
+  (LoopRange (ch_send_SendData_0, ((Io RecvLine) :: ((Branch
+    ((Cancel :: (Return :: [])), [])) :: ((Branch
+    ((Cancel :: (Return :: [])), [])) :: ((Branch (((Sel (((SendAlt
+    ch_send_RecvAck_0), []) :: ((DoneAlt, (Return :: [])) :: []))) :: []),
+    [])) :: ((Branch (((Branch (((Branch (((WgDone wg_bufInitWG) :: []),
+    [])) :: []), ((Branch (((WgDone wg_bufInitWG) :: []),
+    [])) :: []))) :: []),
+    [])) :: (IfCtxExit :: [])))))))) :: (IfCtxExit :: ((LoopCtx ((Io
+    RecvLine) :: ((Branch ((Cancel :: (Return :: [])), [])) :: ((Branch
+    ((Cancel :: (Return :: [])), [])) :: ((Branch
+    ((Cancel :: (Return :: [])), [])) :: ((Branch (((Sel (((SendAlt
+    ch_send_RecvAck_0), []) :: ((DoneAlt, (Return :: [])) :: []))) :: []),
+    [])) :: ((Branch (((Branch (((SendOnce ch_send_sendFileDataV2_0) :: []),
+    [])) :: (Return :: [])), [])) :: []))))))) :: []))
+
+(** val send_RecvAck_finally : stmt list **)
+
+let send_RecvAck_finally =
+  []
+
+(** val send_RecvAck_proc : proc **)
+
+let send_RecvAck_proc =
+  { body = send_RecvAck_body; finally = send_RecvAck_finally; defer_close =
+    (ch_send_RecvAck_0 :: []); exit_cancel = false; rank = (S (S (S O))) }
+
+(** val send_ShowProgress_body : stmt list **)
+
+let send_ShowProgress_body =
+  (LoopRange (ch_send_RecvAck_0, (IfCtxExit :: []))) :: []
+
+(** val send_ShowProgress_finally : stmt list **)
+
+let send_ShowProgress_finally =
+  []
+
+(** val send_ShowProgress_proc : proc **)
+
+let send_ShowProgress_proc =
+  { body = send_ShowProgress_body; finally = send_ShowProgress_finally;
+    defer_close = []; exit_cancel = false; rank = (S (S (S (S O)))) }
+
+(** val send_main_body : stmt list **)
+
+let send_main_body =
+  (Io FileIO) :: ((Io WriteWire) :: ((Branch ((Return :: []), [])) :: ((Sel
+    (((RecvAlt ch_send_sendFileDataV2_0), ((RecvClose
+    ch_send_CalculateMD5_0) :: (Return :: []))) :: ((DoneAlt,
+    (Return :: [])) :: []))) :: [])))
+
+(** val send_main_finally : stmt list **)
+
+let send_main_finally =
+  (Branch (((Join p_send_ShowProgress) :: []), [])) :: []
+
+(** val send_main_proc : proc **)
+
+let send_main_proc =
+  { body = send_main_body; finally = send_main_finally; defer_close =
+    (ch_send_sendFileDataV2_0 :: []); exit_cancel = true; rank = (S (S (S (S
+    (S O))))) }
+
+(** val send_net : net **)
+
+let send_net =
+  { procs_of =
+    (send_ReadData_proc :: (send_CalculateMD5_proc :: (send_EncodeData_proc :: (send_SendData_proc :: (send_RecvAck_proc :: (send_ShowProgress_proc :: (send_main_proc :: [])))))));
+    caps = ((S O) :: ((S (S (S (S (S (S (S (S (S (S (S (S (S (S (S (S (S (S
+    (S (S (S (S (S (S (S (S (S (S (S (S (S (S (S (S (S (S (S (S (S (S (S (S
+    (S (S (S (S (S (S (S (S (S (S (S (S (S (S (S (S (S (S (S (S (S (S (S (S
+    (S (S (S (S (S (S (S (S (S (S (S (S (S (S (S (S (S (S (S (S (S (S (S (S
+    (S (S (S (S (S (S (S (S (S (S
+    O)))))))))))))))))))))))))))))))))))))))))))))))))))))))))))))))))))))))))))))))))))))))))))))))))))) :: ((S
+    (S (S (S (S (S (S (S (S (S (S (S (S (S (S (S (S (S (S (S (S (S (S (S (S
+    (S (S (S (S (S (S (S (S (S (S (S (S (S (S (S (S (S (S (S (S (S (S (S (S
+    (S (S (S (S (S (S (S (S (S (S (S (S (S (S (S (S (S (S (S (S (S (S (S (S
+    (S (S (S (S (S (S (S (S (S (S (S (S (S (S (S (S (S (S (S (S (S (S (S (S
+    (S (S (S
+    O)))))))))))))))))))))))))))))))))))))))))))))))))))))))))))))))))))))))))))))))))))))))))))))))))))) :: ((S
+    O) :: ((S (S (S (S (S O))))) :: ((S (S (S (S (S O))))) :: ((S (S (S (S (S
+    (S (S (S (S (S (S (S (S (S (S (S (S (S (S (S (S (S (S (S (S (S (S (S (S
+    (S (S (S (S (S (S (S (S (S (S (S (S (S (S (S (S (S (S (S (S (S (S (S (S
+    (S (S (S (S (S (S (S (S (S (S (S (S (S (S (S (S (S (S (S (S (S (S (S (S
+    (S (S (S (S (S (S (S (S (S (S (S (S (S (S (S (S (S (S (S (S (S (S (S
+    O)))))))))))))))))))))))))))))))))))))))))))))))))))))))))))))))))))))))))))))))))))))))))))))))))))) :: [])))))));
+    senders = ((Some p_send_RecvAck) :: (None :: (None :: ((Some
+    p_send_CalculateMD5) :: (None :: (None :: (None :: []))))))) }
+
+(** val ch_recv_recvFileDataV2_0 : chan **)
+
+let ch_recv_recvFileDataV2_0 =
+  O
+
+(** val ch_recv_RecvData_0 : chan **)
+
+let ch_recv_RecvData_0 =
+  S O
+
+(** val ch_recv_RecvData_1 : chan **)
+
+let ch_recv_RecvData_1 =
+  S (S O)
+
+(** val ch_recv_SendAck_0 : chan **)
+
+let ch_recv_SendAck_0 =
+  S (S (S O))
+
+(** val ch_recv_DecodeData_0 : chan **)
+
+let ch_recv_DecodeData_0 =
+  S (S (S (S O)))
+
+(** val ch_recv_DecodeData_1 : chan **)
+
+let ch_recv_DecodeData_1 =
+  S (S (S (S (S O))))
+
+(** val ch_recv_CalculateMD5_0 : chan **)
+
+let ch_recv_CalculateMD5_0 =
+  S (S (S (S (S (S O)))))
+
+(** val ch_recv_SaveData_0 : chan **)
+
+let ch_recv_SaveData_0 =
+  S (S (S (S (S (S (S O))))))
+
+(** val p_recv_SendAck : pid **)
+
+let p_recv_SendAck =
+  S O
+
+(** val p_recv_CalculateMD5 : pid **)
+
+let p_recv_CalculateMD5 =
+  S (S (S O))
+
+(** val p_recv_SaveData : pid **)
+
+let p_recv_SaveData =
+  S (S (S (S O)))
+
+(** val p_recv_ShowProgress : pid **)
+
+let p_recv_ShowProgress =
+  S (S (S (S (S O))))
+
+(** val recv_RecvData_body : stmt list **)
+
+let recv_RecvData_body =
+  (LoopCtx ((Branch (((Io RecvLine) :: []), ((Io
+    RecvLine) :: []))) :: ((Branch ((Cancel :: (Return :: [])), [])) :: ((Sel
+    (((SendAlt ch_recv_RecvData_0), []) :: ((DoneAlt,
+    (Return :: [])) :: []))) :: ((Branch ((Return :: []), [])) :: ((Sel
+    (((SendAlt ch_recv_RecvData_1), []) :: ((DoneAlt,
+    (Return :: [])) :: []))) :: [])))))) :: []
+
+(** val recv_RecvData_finally : stmt list **)
+
+let recv_RecvData_finally =
+  []
+
+(** val recv_RecvData_proc : proc **)
+
+let recv_RecvData_proc =
+  { body = recv_RecvData_body; finally = recv_RecvData_finally; defer_close =
+    (ch_recv_RecvData_0 :: (ch_recv_RecvData_1 :: [])); exit_cancel = false;
+    rank = O }
+
+(** val recv_SendAck_body : stmt list **)
+
+let recv_SendAck_body =
+  (LoopRange (ch_recv_RecvData_0, ((Io PauseGate) :: ((Branch
+    ((Cancel :: (Return :: [])), [])) :: ((Io WriteWire) :: ((Branch
+    ((Cancel :: (Return :: [])), [])) :: (IfCtxExit :: []))))))) :: ((LoopCtx
+    ((Io PauseGate) :: ((Branch ((Cancel :: (Return :: [])), [])) :: ((Io
+    WriteWire) :: ((Branch ((Cancel :: (Return :: [])), [])) :: ((Branch
+    ((Cancel :: (Return :: [])), [])) :: ((Branch (((Branch (((SendOnce
+    ch_recv_recvFileDataV2_0) :: []), [])) :: (Return :: [])), [])) :: ((Sel
+    (((RecvAlt ch_recv_SendAck_0), []) :: ((TimerAlt,
+    []) :: []))) :: [])))))))) :: [])
+
+(** val recv_SendAck_finally : stmt list **)
+
+let recv_SendAck_finally =
+  []
+
+(** val recv_SendAck_proc : proc **)
+
+let recv_SendAck_proc =
+  { body = recv_SendAck_body; finally = recv_SendAck_finally; defer_close =
+    []; exit_cancel = false; rank = (S O) }
+
+(** val recv_DecodeData_body : stmt list **)
+
+let recv_DecodeData_body =
+  (Branch ((Cancel :: (Return :: [])), [])) :: ((LoopCtx ((LoopData ((Branch
+    ([], ((Branch (((Sel (((RecvAlt ch_recv_RecvData_1), []) :: ((DoneAlt,
+    []) :: []))) :: []), [])) :: []))) :: [])) :: ((Branch (((Sel (((SendAlt
+    ch_recv_DecodeData_0), []) :: ((DoneAlt,
+    (Return :: [])) :: []))) :: ((Sel (((SendAlt ch_recv_DecodeData_1),
+    []) :: ((DoneAlt, (Return :: [])) :: []))) :: [])), [])) :: ((Branch
+    ((Return :: []), [])) :: ((Branch ((Cancel :: (Return :: [])),
+    [])) :: []))))) :: [])
+
+(** val recv_DecodeData_finally : stmt list **)
+
+let recv_DecodeData_finally =
+  []
+
+(** val recv_DecodeData_proc : proc **)
+
+let recv_DecodeData_proc =
+  { body = recv_DecodeData_body; finally = recv_DecodeData_finally;
+    defer_close = (ch_recv_DecodeData_0 :: (ch_recv_DecodeData_1 :: []));
+    exit_cancel = false; rank = O }
+
+(** val recv_CalculateMD5_body : stmt list **)
+
+let recv_CalculateMD5_body =
+  (LoopRange (ch_recv_DecodeData_1, ((Branch ((Cancel :: (Return :: [])),
+    [])) :: (IfCtxExit :: [])))) :: (IfCtxExit :: ((SendOnce
+    ch_recv_CalculateMD5_0) :: []))
+
+(** val recv_CalculateMD5_finally : stmt list **)
+
+let recv_CalculateMD5_finally =
+  []
+
+(** val recv_CalculateMD5_proc : proc **)
+
+let recv_CalculateMD5_proc =
+  { body = recv_CalculateMD5_body; finally = recv_CalculateMD5_finally;
+    defer_close = (ch_recv_CalculateMD5_0 :: []); exit_cancel = false; rank =
+    (S O) }
+
+(** val recv_SaveData_body : stmt list **)
+
+let recv_SaveData_body =
+  (LoopRange (ch_recv_DecodeData_0, ((Io FileIO) :: ((Branch
+    ((Cancel :: (Return :: [])), [])) :: ((Branch (((Sel (((SendAlt
+    ch_recv_SaveData_0), []) :: ((DoneAlt, (Return :: [])) :: []))) :: []),
+    [])) :: (IfCtxExit :: [])))))) :: (IfCtxExit :: ((Branch
+    ((Cancel :: (Return :: [])), [])) :: ((SendOnce
+    ch_recv_SendAck_0) :: [])))
+
+(** val recv_SaveData_finally : stmt list **)
+
+let recv_SaveData_finally =
+  []
+
+(** val recv_SaveData_proc : proc **)
+
+let recv_SaveData_proc =
+  { body = recv_SaveData_body; finally = recv_SaveData_finally; defer_close =
+    (ch_recv_SaveData_0 :: (ch_recv_SendAck_0 :: [])); exit_cancel = false;
+    rank = (S O) }
+
+(** val recv_ShowProgress_body : stmt list **)
+
+let recv_ShowProgress_body =
+  (LoopRange (ch_recv_SaveData_0, (IfCtxExit :: []))) :: []
+
+(** val recv_ShowProgress_finally : stmt list **)
+
+let recv_ShowProgress_finally =
+  []
+
+(** val recv_ShowProgress_proc : proc **)
+
+let recv_ShowProgress_proc =
+  { body = recv_ShowProgress_body; finally = recv_ShowProgress_finally;
+    defer_close = []; exit_cancel = false; rank = (S (S O)) }
+
+(** val recv_main_body : stmt list **)
+
+let recv_main_body =
+  (Io RecvLine) :: ((Branch ((Return :: []), [])) :: ((Sel (((RecvAlt
+    ch_recv_recvFileDataV2_0), ((RecvClose
+    ch_recv_CalculateMD5_0) :: (Return :: []))) :: ((DoneAlt,
+    (Return :: [])) :: []))) :: []))
+
+(** val recv_main_finally : stmt list **)
+
+let recv_main_finally =
+  (Branch (((Join p_recv_ShowProgress) :: []), [])) :: []
+
+(** val recv_main_proc : proc **)
+
+let recv_main_proc =
+  { body = recv_main_body; finally = recv_main_finally; defer_close =
+    (ch_recv_recvFileDataV2_0 :: []); exit_cancel = true; rank = (S (S (S
+    O))) }
+
+(** val recv_net : net **)
+
+let recv_net =
+  { procs_of =
+    (recv_RecvData_proc :: (recv_SendAck_proc :: (recv_DecodeData_proc :: (recv_CalculateMD5_proc :: (recv_SaveData_proc :: (recv_ShowProgress_proc :: (recv_main_proc :: [])))))));
+    caps = ((S O) :: ((S (S (S (S (S (S (S (S (S (S (S (S (S (S (S (S (S (S
+    (S (S (S (S (S (S (S (S (S (S (S (S (S (S (S (S (S (S (S (S (S (S (S (S
+    (S (S (S (S (S (S (S (S (S (S (S (S (S (S (S (S (S (S (S (S (S (S (S (S
+    (S (S (S (S (S (S (S (S (S (S (S (S (S (S (S (S (S (S (S (S (S (S (S (S
+    (S (S (S (S (S (S (S (S (S (S
+    O)))))))))))))))))))))))))))))))))))))))))))))))))))))))))))))))))))))))))))))))))))))))))))))))))))) :: ((S
+    (S (S (S (S (S (S (S (S (S (S (S (S (S (S (S (S (S (S (S (S (S (S (S (S
+    (S (S (S (S (S (S (S (S (S (S (S (S (S (S (S (S (S (S (S (S (S (S (S (S
+    (S (S (S (S (S (S (S (S (S (S (S (S (S (S (S (S (S (S (S (S (S (S (S (S
+    (S (S (S (S (S (S (S (S (S (S (S (S (S (S (S (S (S (S (S (S (S (S (S (S
+    (S (S (S
+    O)))))))))))))))))))))))))))))))))))))))))))))))))))))))))))))))))))))))))))))))))))))))))))))))))))) :: ((S
+    O) :: ((S (S (S (S (S (S (S (S (S (S (S (S (S (S (S (S (S (S (S (S (S (S
+    (S (S (S (S (S (S (S (S (S (S (S (S (S (S (S (S (S (S (S (S (S (S (S (S
+    (S (S (S (S (S (S (S (S (S (S (S (S (S (S (S (S (S (S (S (S (S (S (S (S
+    (S (S (S (S (S (S (S (S (S (S (S (S (S (S (S (S (S (S (S (S (S (S (S (S
+    (S (S (S (S (S (S
+    O)))))))))))))))))))))))))))))))))))))))))))))))))))))))))))))))))))))))))))))))))))))))))))))))))))) :: ((S
+    (S (S (S (S (S (S (S (S (S (S (S (S (S (S (S (S (S (S (S (S (S (S (S (S
+    (S (S (S (S (S (S (S (S (S (S (S (S (S (S (S (S (S (S (S (S (S (S (S (S
+    (S (S (S (S (S (S (S (S (S (S (S (S (S (S (S (S (S (S (S (S (S (S (S (S
+    (S (S (S (S (S (S (S (S (S (S (S (S (S (S (S (S (S (S (S (S (S (S (S (S
+    (S (S (S
+    O)))))))))))))))))))))))))))))))))))))))))))))))))))))))))))))))))))))))))))))))))))))))))))))))))))) :: ((S
+    O) :: ((S (S (S (S (S (S (S (S (S (S (S (S (S (S (S (S (S (S (S (S (S (S
+    (S (S (S (S (S (S (S (S (S (S (S (S (S (S (S (S (S (S (S (S (S (S (S (S
+    (S (S (S (S (S (S (S (S (S (S (S (S (S (S (S (S (S (S (S (S (S (S (S (S
+    (S (S (S (S (S (S (S (S (S (S (S (S (S (S (S (S (S (S (S (S (S (S (S (S
+    (S (S (S (S (S (S
+    O)))))))))))))))))))))))))))))))))))))))))))))))))))))))))))))))))))))))))))))))))))))))))))))))))))) :: []))))))));
+    senders = ((Some p_recv_SendAck) :: (None :: (None :: ((Some
+    p_recv_SaveData) :: (None :: (None :: ((Some
+    p_recv_CalculateMD5) :: (None :: [])))))))) }
+
+(** val ch_hash_RecvHashAck_0 : chan **)
+
+let ch_hash_RecvHashAck_0 =
+  O
+
+(** val p_hash_SendHash : pid **)
+
+let p_hash_SendHash =
+  O
+
+(** val p_hash_RecvHashAck : pid **)
+
+let p_hash_RecvHashAck =
+  S O
+
+(** val hash_SendHash_body : stmt list **)
+
+let hash_SendHash_body =
+  (LoopCtx ((Io FileIO) :: ((Branch ((Cancel :: (Return :: [])), [])) :: ((Io
+    WriteWire) :: ((Branch ((Cancel :: (Return :: [])),
+    [])) :: []))))) :: (IfCtxExit :: ((Io WriteWire) :: ((Branch
+    ((Cancel :: (Return :: [])), [])) :: [])))
+
+(** val hash_SendHash_finally : stmt list **)
+
+let hash_SendHash_finally =
+  []
+
+(** val hash_SendHash_proc : proc **)
+
+let hash_SendHash_proc =
+  { body = hash_SendHash_body; finally = hash_SendHash_finally; defer_close =
+    []; exit_cancel = false; rank = O }
+
+(** val hash_RecvHashAck_body : stmt list **)
+
+let hash_RecvHashAck_body =
+  (LoopCtx ((Io RecvLine) :: ((Branch ((Cancel :: (Return :: [])),
+    [])) :: ((Branch (((SendOnce ch_hash_RecvHashAck_0) :: (Return :: [])),
+    [])) :: ((Branch (((SendOnce ch_hash_RecvHashAck_0) :: (Return :: [])),
+    ((Branch ((Cancel :: (Return :: [])), [])) :: []))) :: []))))) :: []
+
+(** val hash_RecvHashAck_finally : stmt list **)
+
+let hash_RecvHashAck_finally =
+  []
+
+(** val hash_RecvHashAck_proc : proc **)
+
+let hash_RecvHashAck_proc =
+  { body = hash_RecvHashAck_body; finally = hash_RecvHashAck_finally;
+    defer_close = (ch_hash_RecvHashAck_0 :: []); exit_cancel = false; rank =
+    O }
+
+(** val hash_main_body : stmt list **)
+
+let hash_main_body =
+  (Branch ((Return :: []), [])) :: ((Branch (((Io WriteWire) :: ((Branch
+    ((Return :: []), [])) :: [])), [])) :: ((Sel ((DoneAlt,
+    (Return :: [])) :: (((RecvAlt ch_hash_RecvHashAck_0),
+    []) :: []))) :: ((Join p_hash_SendHash) :: (IfCtxExit :: ((Io
+    FileIO) :: ((Branch ((Return :: []), [])) :: (Return :: [])))))))
+
+(** val hash_main_finally : stmt list **)
+
+let hash_main_finally =
+  []
+
+(** val hash_main_proc : proc **)
+
+let hash_main_proc =
+  { body = hash_main_body; finally = hash_main_finally; defer_close = [];
+    exit_cancel = true; rank = (S O) }
+
+(** val hash_net : net **)
+
+let hash_net =
+  { procs_of =
+    (hash_SendHash_proc :: (hash_RecvHashAck_proc :: (hash_main_proc :: [])));
+    caps = ((S O) :: []); senders = ((Some p_hash_RecvHashAck) :: []) }
